@@ -17,4 +17,4 @@ for d in "$WT"/SEED/r?; do
   mkdir -p "$dst"
   cp "$d/patch.diff" "$d/meta.json" "$dst/"
 done
-python3 /verif/selftest/refcheck.py "$ID" 2>&1 | grep -v "conda\|Caused by\|^$" | cut -c1-700
+[ -n "${NO_CHECK:-}" ] || python3 /verif/selftest/refcheck.py "$ID" 2>&1 | grep -v "conda\|Caused by\|^$" | cut -c1-700
